@@ -3,13 +3,8 @@
   stdin : `<component>\t<case>\t<impl output>` per line
   stdout: `<model output>\t<verdict>` per line, verdict ∈ ok | viol[:reason] | unparsed | na
 -/
-import MosVerif.Model.Fallback
+import MosVerif.Generated.Dispatch
 open MosVerif
-
-def dispatch (comp case impl : String) : String × String :=
-  match comp with
-  | "fallback" => Fallback.run case impl
-  | _ => ("unknown-component", "na")
 
 partial def loop (h : IO.FS.Stream) (out : IO.FS.Stream) : IO Unit := do
   let line ← h.getLine
